@@ -21,7 +21,9 @@ RULE = ('tuples (macro, args, premise sequents): (i) every macro step in the fin
         'of sequents with and without hypotheses; nat_norm, nat_const_ineq, nat_const_less(_eq) on all (in)equalities between nat '
         'expressions with <= 2 operators; the int comparison macros on integer literals/expressions; (iv) sessions of two invocations '
         'of the auto macro (its normal-form memo persists across invocations) on real goals needing side conditions, the condition '
-        'given as proved fact, as assumption, or not at all, every ordered pair. For every tuple on which eval '
+        'given as proved fact, as assumption, or not at all, every ordered pair; (v) every step of the stored solver-produced veriT proofs '
+        '(corpus/verit, 151 proofs, 76 rules) and its 1-deviation near misses, and verit_conj_pts / verit_disj_pts on all premise lists '
+        'A_i <--> r_i, r_i in {B, C, D}, n = 2..4. For every tuple on which eval '
         'succeeds and the expansion is produced: the one-step proof (premises as placeholders) is checked at the default level, so '
         'the step is expanded down to primitive rules, theorems and level-0 oracles; the result must have the conclusion eval '
         'reports, no hypothesis eval does not report, and rest on no unproved statement other than the premises. distinct_nontrivial = distinct tuples compared.')
@@ -59,6 +61,14 @@ def cases(tier):
     ns = len(auto_sessions(tier))
     for i in range(0, ns, 25):
         yield ['auto', 'sessions', i, min(i + 25, ns)]
+    from mc.props import c18
+    for f in c18.corpus_files():
+        if tier == 'quick' and os.path.getsize(os.path.join(c18.CORPUS, f)) > 4000:
+            continue
+        yield ['verit', f]
+    n = len(verit_pts_tuples(tier))
+    for i in range(0, n, 40):
+        yield ['verit-pts', i, min(i + 40, n)]
 
 
 # ------------------------------------------------------------------------------ judging one tuple
@@ -81,7 +91,7 @@ def show_args(args):
         return repr(args)
 
 
-def judge(name, args, prev_ths, tag):
+def judge(name, args, prev_ths, tag, show=None, depth=0):
     """-> (class, violation-or-None)"""
     from kernel import theory
     from kernel.proof import Proof, ProofItem, ItemID
@@ -104,14 +114,14 @@ def judge(name, args, prev_ths, tag):
     k = len(prev_ths)
     ids = [ItemID(i) for i in range(k)]
     try:
-        macro.expand(ItemID(k), args, list(zip(ids, prev_ths)))
+        sub = macro.expand(ItemID(k), args, list(zip(ids, prev_ths)))
     except RecursionError:
         return 'expansion-not-produced', None
     except Exception:
         return 'expansion-not-produced', None
     prf = Proof()
     prf.items = [ProofItem(i, 'sorry', th=prev_ths[i]) for i in range(k)] + [ProofItem(k, name, args=args, prevs=list(range(k)))]
-    desc = '%s %s from [%s]' % (name, show_args(args), '; '.join(show_th(t) for t in prev_ths))
+    desc = '%s %s from [%s]' % (name, (show or show_args)(args), '; '.join(show_th(t) for t in prev_ths))
 
     def v(kind, what):
         return {'signature': '%s:%s' % (kind, desc), 'what': '%s (%s): %s' % (desc, tag, what)}
@@ -122,6 +132,12 @@ def judge(name, args, prev_ths, tag):
     except RecursionError:
         return 'expansion-not-produced', None
     except Exception as e:
+        # localise: a macro step inside the produced expansion that itself violates the property is the smaller counterexample
+        if depth < 4:
+            inner = localise(sub, prev_ths, tag, depth)
+            if inner is not None:
+                inner[1]['what'] = 'inside the expansion of %s: %s' % (desc[:300], inner[1]['what'])
+                return inner
         return 'EXPANSION-REJECTED', v('expansion-rejected', 'eval reports %s, but the expansion is refused by the checker: %s: %s' % (
             show_th(ev), type(e).__name__, str(getattr(e, 'str', e))[:200]))
     ex = prf.items[-1].th
@@ -134,6 +150,51 @@ def judge(name, args, prev_ths, tag):
         return 'RESTS-ON-GAP', v('rests-on-gap', 'eval reports %s; the accepted expansion rests on unproved statements other than the premises: %s' % (
             show_th(ev), '; '.join(show_th(g) for g in extra[:3])))
     return 'agree', None
+
+
+def localise(sub, outer_prevs, tag, depth):
+    """first macro step of an exported expansion that violates the property on its own, as (class, violation), or None"""
+    from kernel import theory
+    by_id = {}
+
+    def index(items):
+        for it in items:
+            by_id[str(it.id)] = it
+            if it.subproof:
+                index(it.subproof.items)
+    index(sub.items)
+
+    def walk(items):
+        for it in items:
+            if it.subproof:
+                r = walk(it.subproof.items)
+                if r is not None:
+                    return r
+            if it.rule in theory.global_macros:
+                prevs = []
+                ok = True
+                for pid in it.prevs:
+                    key = str(pid)
+                    if key in by_id and by_id[key].th is not None:
+                        prevs.append(by_id[key].th)
+                    elif len(pid.id) == 1 and pid.id[0] < len(outer_prevs):
+                        prevs.append(outer_prevs[pid.id[0]])
+                    else:
+                        ok = False
+                        break
+                if not ok:
+                    continue
+                try:
+                    cls, bad = judge(it.rule, it.args, prevs, tag, depth=depth + 1)
+                except Exception:
+                    continue
+                if bad is not None:
+                    return cls, bad
+        return None
+    try:
+        return walk(sub.items)
+    except Exception:
+        return None
 
 
 def bool_subterms(t, limit=6):
@@ -470,6 +531,76 @@ def run_auto(case, tier):
     return Outcome('tuples-agree' if n_agree else 'no-tuple-compared', n_agree > 0, obs='auto%d:%d' % (case[2], n_agree))
 
 
+def verit_pts_tuples(tier):
+    """premise lists A_i <--> r_i with every choice of right sides from {B, C, D} (repeats adjacent and apart), n = 2..4, for the
+    macros that combine equivalences componentwise"""
+    from kernel.term import Var, BoolType, Eq
+    from kernel.thm import Thm
+    R = [Var(n, BoolType) for n in ('B', 'C', 'D')]
+    out = []
+    for n in (2, 3, 4):
+        import itertools as it
+        for rs in it.product(R, repeat=n):
+            prevs = [Thm(Eq(Var('A%d' % (i + 1), BoolType), r)) for i, r in enumerate(rs)]
+            for name in ('verit_conj_pts', 'verit_disj_pts'):
+                out.append((name, None, prevs))
+    return out
+
+
+def run_verit_pts(case, tier):
+    from logic import basic
+    basic.load_theory('verit')
+    return run_tuples(verit_pts_tuples(tier)[case[1]:case[2]], ['verit-pts', 'pts', case[1]], with_neighbours=False)
+
+
+def run_verit(case, tier):
+    """every step of a stored solver proof and its near misses (mc.props.c18), eval against expansion"""
+    import io
+    import contextlib
+    from logic import basic
+    from mc.props import c18
+    basic.load_theory('verit')
+    fname = case[1]
+    per_rule = 3 if tier == 'quick' else 40
+    try:
+        with contextlib.redirect_stdout(io.StringIO()):
+            steps = c18.replay_file(fname)
+    except RecursionError:
+        return Outcome('corpus-not-replayable')
+    except Exception:
+        return Outcome('corpus-not-replayable')
+    count = {}
+    n_agree = 0
+    seen = set()
+    for rule, args, prevs in steps:
+        count[rule] = count.get(rule, 0) + 1
+        if count[rule] > per_rule:
+            continue
+        if not c18.small_enough(args, prevs, 400 if tier == 'quick' else 1500):
+            count[rule] -= 1
+            continue
+        todo = [('as produced by the solver', args, list(prevs))]
+        try:
+            todo += list(c18.near_misses(rule, args, list(prevs)))
+        except Exception:
+            pass
+        for tag, a, p in todo:
+            try:
+                key = (rule, c18.show_args(a), tuple((q.prop, tuple(q.hyps)) for q in p))
+            except Exception:
+                continue
+            if key in seen:
+                continue
+            seen.add(key)
+            with contextlib.redirect_stdout(io.StringIO()):
+                cls, bad = judge(rule, a, p, tag + ', ' + fname[:-len('.proof.gz')], show=c18.show_args)
+            if bad:
+                return Outcome(cls, violation=bad)
+            if cls == 'agree':
+                n_agree += 1
+    return Outcome('tuples-agree' if n_agree else 'no-tuple-compared', n_agree > 0, obs='%s:%d' % (fname[:40], n_agree))
+
+
 _TIER = ['quick']
 
 
@@ -495,6 +626,10 @@ def run(case):
         return run_lib(case)
     if case[0] == 'auto':
         return run_auto(case, _TIER[0])
+    if case[0] == 'verit':
+        return run_verit(case, _TIER[0])
+    if case[0] == 'verit-pts':
+        return run_verit_pts(case, _TIER[0])
     from logic import basic
     basic.load_theory('int')
     return run_gen(case, _TIER[0])
